@@ -214,7 +214,8 @@ def mpf_relative(d, s, p, maxbits=4096):
     ssign, sman, sexp, sbc = s
     if sman == 0:
         return mpf_finite(d, p, maxbits)
-    kind = d.weighted([(5, "indep"), (8, "offset"), (4, "delta"), (3, "cancel"), (2, "multiple"), (2, "same")])
+    kind = d.weighted([(5, "indep"), (8, "offset"), (4, "delta"), (3, "cancel"), (2, "multiple"), (2, "same"),
+                       (6, "edge")])
     d.label("rel:" + kind)
     if kind == "indep":
         return mpf_finite(d, p, maxbits)
@@ -230,6 +231,26 @@ def mpf_relative(d, s, p, maxbits=4096):
     if kind == "multiple":
         q = d.int(1, 1 << d.int(1, 70))
         return mk(d.int(0, 1), sman * q, sexp + d.int(-5, 5))
+    if kind == "edge":
+        # both sides of mpf_add's far-exponent shortcut: exponent offset just above/below 100 while the
+        # distance between the top bits is p-2 .. p+6 and the small operand's length straddles the offset
+        delta = p + d.int(-2, 6)
+        off = d.choice([99, 100, 101, 102, 103, 120, 200]) if d.bool() else d.int(101, 101 + 2 * p)
+        tbc = off - delta + sbc          # so that (sexp+sbc) - (texp+tbc) == delta
+        tbc += d.choice([0, 0, 0, 1, -1])
+        if tbc < 1:
+            tbc = d.int(1, 8)
+        style = d.int(0, 3)
+        if style == 0:
+            m = (1 << (tbc - 1)) | d.bits(min(tbc - 1, 64))
+        elif style == 1:
+            m = (1 << tbc) - 1
+        elif style == 2:
+            m = (1 << (tbc - 1)) | 1
+        else:
+            m = (1 << (tbc - 1)) | (d.bits(min(tbc - 1, 64)) << max(0, tbc - 1 - 64))
+        t = mk(d.int(0, 1), m, sexp - off)
+        return t
     m, mc = mantissa(d, p, maxbits)
     d.label("m2:" + mc)
     tbc = m.bit_length()
